@@ -244,13 +244,29 @@ func (s *Store) Flush() error {
 	if s.file == nil {
 		return errors.New("no file / in-memory only, so cannot Flush()")
 	}
-	coll := *s.getColl()
+	var coll map[string]*Collection
+	var cnames []string
 	rnls := map[string]*rootNodeLoc{}
-	cnames := collNames(coll)
-	for _, name := range cnames {
-		c := coll[name]
-		rnls[name] = c.rootAddRef()
-		verifYield(11) // VerifSiteFlushPin
+	for pinned := false; !pinned; {
+		coll = *s.getColl()
+		cnames = collNames(coll)
+		pinned = true
+		for _, name := range cnames {
+			rnl := coll[name].rootAddRefIfOpen()
+			if rnl == nil {
+				// The mutator replaced or removed this collection after we
+				// fetched the map: give back what we pinned and start over
+				// with the map as it is now.
+				for n, r := range rnls {
+					coll[n].rootDecRef(r)
+					delete(rnls, n)
+				}
+				pinned = false
+				break
+			}
+			rnls[name] = rnl
+			verifYield(11) // VerifSiteFlushPin
+		}
 	}
 	defer func() {
 		for _, name := range cnames {
@@ -301,25 +317,39 @@ func (s *Store) FlushRevert() error {
 // snapshot has its mutations and Flush() operations disabled because
 // the original store "owns" writes to the StoreFile.
 func (s *Store) Snapshot() (snapshot *Store) {
-	coll := copyColl(*s.getColl())
-	res := &Store{
-		coll:      &coll,
-		file:      s.file,
-		size:      atomic.LoadInt64(&s.size),
-		readOnly:  true,
-		callbacks: s.callbacks,
-	}
-	for _, name := range collNames(coll) {
-		collOrig := coll[name]
-		coll[name] = &Collection{
-			store:    res,
-			compare:  collOrig.compare,
-			rootLock: collOrig.rootLock,
-			root:     collOrig.rootAddRef(),
+	for {
+		orig := *s.getColl()
+		coll := make(map[string]*Collection, len(orig))
+		res := &Store{
+			coll:      &coll,
+			file:      s.file,
+			size:      atomic.LoadInt64(&s.size),
+			readOnly:  true,
+			callbacks: s.callbacks,
 		}
-		verifYield(14) // VerifSiteSnapshotColl
+		complete := true
+		for _, name := range collNames(orig) {
+			collOrig := orig[name]
+			rnl := collOrig.rootAddRefIfOpen()
+			if rnl == nil {
+				// The mutator replaced or removed this collection after we
+				// fetched the map: drop the partial snapshot and start over.
+				complete = false
+				break
+			}
+			coll[name] = &Collection{
+				store:    res,
+				compare:  collOrig.compare,
+				rootLock: collOrig.rootLock,
+				root:     rnl,
+			}
+			verifYield(14) // VerifSiteSnapshotColl
+		}
+		if complete {
+			return res
+		}
+		res.Close()
 	}
-	return res
 }
 
 // Close the store after use
